@@ -2,7 +2,7 @@
 
 A *realisation* is a dict of independent choices the specification knows nothing about:
   calendar : key of CALENDARS (grid start, tick length, freq, zone)
-  mtu      : main time unit of the EAO grid ('h', 'd', 'min', '15min')
+  mtu      : main time unit of the EAO grid ('h', 'd', 'min', 's': pandas units only -- EAO takes pd.Timedelta(1, main_time_unit))
   names    : function index -> asset name          nodes: function node -> node name
   order    : permutation of asset indices
   route    : 'mono' | 'split:<interval>' | 'struct:<i,j,..>' | 'io'
